@@ -51,6 +51,8 @@ pub trait Queryable: Sized {
         ensures Self::from_bool_spec(b).as_bool_spec() == Some(b);
     proof fn array_len_bound(&self)
         ensures self.as_array_spec() matches Some(a) ==> a@.len() < 0x4000_0000_0000_0000;
+    proof fn get_only_on_objects(&self, key: Seq<char>)
+        ensures self.get_spec(key) is Some ==> self.as_object_spec() is Some;
     proof fn children_are_smaller(&self)
         ensures
             self.as_array_spec() matches Some(a) ==> forall|i: int| 0 <= i < a@.len() ==> (#[trigger] a@[i]).height_spec() < self.height_spec(),
